@@ -136,6 +136,11 @@ func init() {
 	reg(N+"StaleRead", func(p *Path, _ *frame, a []Value) Value { return read(p, a, 1, 2) })
 	reg(N+"SyncRead", func(p *Path, _ *frame, a []Value) Value { return read(p, a, 2, 3) })
 	reg(N+"HasNodeInfo", func(p *Path, _ *frame, a []Value) Value { return p.ctx.F })
+	reg(N+"StartOnDiskReplica", func(p *Path, _ *frame, a []Value) Value {
+		nh := p.nhOf(a[0])
+		nh.started = append(nh.started, 0)
+		return Iface{}
+	})
 	reg(N+"StopShard", func(p *Path, _ *frame, a []Value) Value {
 		nh := p.nhOf(a[0])
 		if sh := p.nhShard(nh, a[1]); sh != nil {
